@@ -310,7 +310,7 @@ impl PartDyn for Hammer {
         }
         let next = std::sync::atomic::AtomicUsize::new(0);
         let results = std::sync::Mutex::new(Vec::new());
-        let workers = (run.threads / 6).max(1);
+        let workers = (run.threads / 5).max(1);
         std::thread::scope(|sc| {
             for _ in 0..workers {
                 sc.spawn(|| loop {
